@@ -23,7 +23,7 @@ Lemma typed_encode_wf e v buf idx b :
   elem_typed e v = true -> encode_at e v buf idx = Ok b -> wf_value e v = true.
 Proof.
   unfold elem_typed. intros T E.
-  apply andb_true_iff in T as [T T3]. apply andb_true_iff in T as [T1 T2].
+  apply andb_true_iff in T as [T1 T3].
   unfold rfc_width_ok in T1. unfold encode_at in E.
   destruct (Nat.ltb _ _) in E; [discriminate|].
   unfold wf_value.
@@ -75,10 +75,25 @@ Proof.
   - apply loop_mono in H. lia.
 Qed.
 
-Lemma typed_len_pos e v : elem_typed e v = true -> elem_len e v <> 0.
+(* a typed element that occupies no octet is a zero-width octet array with the empty value *)
+Lemma typed_zero_wf e v : elem_typed e v = true -> elem_len e v = 0 -> wf_value e v = true.
 Proof.
-  unfold elem_typed. intros T. apply andb_true_iff in T as [T _]. apply andb_true_iff in T as [_ T].
-  apply elem_len_pos. destruct (N.eqb_spec (ie_len e) 0); [discriminate|assumption].
+  unfold elem_typed. intros T Z. apply andb_true_iff in T as [T1 T3].
+  unfold rfc_width_ok in T1. unfold elem_len in Z. unfold wf_value.
+  destruct (ie_dt e); destruct v as [o|n|n|n|n|z|z|z|z|n|n|b0|o|s|n|n|o]; try discriminate T3;
+    try (apply N.eqb_eq in T1; rewrite T1 in Z; discriminate Z).
+  - destruct (ie_len e <? var_len) eqn:L.
+    + rewrite Z in T3 |- *. cbn [N.eqb negb orb] in T3. apply Nat.eqb_eq in T3. rewrite T3. reflexivity.
+    + pose proof (var_prefixed_pos (length (obytes o))). lia.
+  - pose proof (var_prefixed_pos (length s)). lia.
+Qed.
+
+Lemma zero_len_wf els : els_typed els = true -> record_len els = 0 -> wf_record els = true.
+Proof.
+  induction els as [|[e v] r IH]; intros T Z; [reflexivity|].
+  cbn [els_typed forallb fst snd] in T. apply andb_true_iff in T as [T1 T2].
+  rewrite record_len_cons in Z. cbn [wf_record forallb fst snd].
+  rewrite (typed_zero_wf e v T1) by lia. cbn [andb]. apply IH; [exact T2|lia].
 Qed.
 
 (* (e): a record whose buffer was produced without an encode error carries only well-formed values *)
@@ -87,9 +102,7 @@ Lemma get_buffer_wf els b :
 Proof.
   unfold get_buffer. intros H T.
   destruct (Nat.eqb_spec (N.to_nat (record_len els)) 0) as [Z|NZ].
-  - destruct els as [|[e v] r]; [reflexivity|].
-    cbn [els_typed forallb fst snd] in T. apply andb_true_iff in T as [T1 _].
-    rewrite record_len_cons in Z. pose proof (typed_len_pos e v T1). lia.
+  - apply zero_len_wf; [exact T|lia].
   - eapply loop_wf; eassumption.
 Qed.
 
